@@ -1,4 +1,5 @@
 import Sif.Proofs.C02Hooks
+import Sif.Proofs.C02Payout
 import Sif.Model.Clp.Machine
 import Sif.Spec.C01
 /-
@@ -88,6 +89,23 @@ end Sif.Props.C02
 
 namespace Sif.Props.C02
 open Sif Sif.Clp Sif.AList
+
+/-- **Payout bound, removal by units.**  Removing `w` of the pool's `P` units pays at most the
+    pro-rata fraction w/P of each depth, up to one base unit plus 10^-15 relative — all magnitudes. -/
+theorem removeUnits_payout_le_prorata {Pu nD eD lu w n e left : Nat} (hw : 0 < w) (hwP : w ≤ Pu)
+    (h : calculateWithdrawalFromUnits Pu nD eD lu w = .ok (n, e, left)) :
+    (n : ℚ) ≤ (nD : ℚ) * w / Pu * (1 + 1 / 10 ^ 15) + 1 ∧ (e : ℚ) ≤ (eD : ℚ) * w / Pu * (1 + 1 / 10 ^ 15) + 1 :=
+  withdrawFromUnits_le_prorata hw hwP h
+
+/-- **Payout bound, removal by basis points.**  With `burned = lpUnits − lpUnitsLeft` the units the
+    removal burns (never more than the provider holds), both payouts are at most depth·burned/P, up
+    to one base unit plus 10^-15 relative. -/
+theorem removeBps_payout_le_prorata {Pu nD eD lu w n e left : Nat} (hw0 : 0 < w) (hw : w ≤ 10000) (hlu : lu ≤ Pu)
+    (h : calculateWithdrawal Pu nD eD lu w = .ok (n, e, left)) :
+    left ≤ lu ∧
+    (n : ℚ) ≤ (nD : ℚ) * ((lu - left : Nat) : ℚ) / Pu * (1 + 1 / 10 ^ 15) + 1 ∧
+    (e : ℚ) ≤ (eD : ℚ) * ((lu - left : Nat) : ℚ) / Pu * (1 + 1 / 10 ^ 15) + 1 :=
+  withdraw_le_prorata hw0 hw hlu h
 
 /-- decidable version of `OpOK`/`RunOK` (used for the non-vacuity example and by the judge) -/
 def opOKb (s : St) : Op → Bool
